@@ -6,7 +6,7 @@ from .. import inputs
 from . import geom
 
 SPEC = dict(
-    lean_modules=['SmVerif.Props.C06'],
+    lean_modules=['SmVerif.Props.C06', 'SmVerif.Props.Structure'],
     groups=['Poses', 'Quaternions', 'Quats', 'TransformsNd'],
     expected_untranslatable=('UQ_interp', 'UQ_interp_shortest'),
     partial=['traced N = 1..4 columns and 1-/2-valued poses are instances of one column-wise specification; other N and '
